@@ -65,6 +65,7 @@ func runC06(c *an.Ctx) {
 	c06unwrap(c)
 	c06mapKey(c)
 	c06shallowest(c)
+	memoRule(c, "C06.cache")
 }
 
 func c06bounds(c *an.Ctx) { boundsRule(c, "C06.bounds") }
@@ -598,6 +599,39 @@ func c06nil(c *an.Ctx) {
 			return true
 		})
 		c.Check(ok, "C06.nil", "indirect/stops-at-nil", ind.Pos(), "indirect() tests IsNil before every Elem()", "indirect() does not stop at a nil pointer/interface before dereferencing it")
+		// … and runs to the end of the chain: a "not nil" result is returned only where the value is known to be
+		// neither a pointer nor an interface (access reaches the data "through any pointers and interfaces")
+		iinfo := ind.Info()
+		x := p.NewExplorer(ind, an.Hooks{})
+		x.Run(nil)
+		c.States += x.Visited
+		okEnd, nRet := true, 0
+		var trail []string
+		for _, ex := range x.Exits {
+			if ex.Kind != an.ExitReturn || ex.Ret == nil || len(ex.Ret.Results) != 2 {
+				continue
+			}
+			if tv, ok := iinfo.Types[ex.Ret.Results[1]]; !ok || tv.Value == nil || tv.Value.ExactString() != "false" {
+				continue
+			}
+			nRet++
+			notPtr, notIface := false, false
+			for k, v := range ex.State.Facts {
+				pk := strings.ReplaceAll(an.PlainKey(k), " ", "")
+				if !v && (strings.HasPrefix(pk, "reflect.Ptr==") || strings.HasSuffix(pk, "==reflect.Ptr") || strings.HasPrefix(pk, "reflect.Pointer==") || strings.HasSuffix(pk, "==reflect.Pointer")) && strings.Contains(pk, ".Kind()") {
+					notPtr = true
+				}
+				if !v && (strings.HasPrefix(pk, "reflect.Interface==") || strings.HasSuffix(pk, "==reflect.Interface")) && strings.Contains(pk, ".Kind()") {
+					notIface = true
+				}
+			}
+			if !notPtr || !notIface {
+				okEnd, trail = false, ex.Trail
+			}
+		}
+		c.Check(okEnd && nRet > 0 && x.Undecided == "", "C06.nil", "indirect/runs-to-the-end", ind.Pos(), "indirect() returns a non-nil result only for a value that is neither pointer nor interface",
+			"indirect() can stop at a pointer or interface that is not nil: data behind it (fields, elements, methods of the dynamic value) is no longer reached")
+		_ = trail
 	}
 	// the only (zero, nil) result: absent map key at the end of a chain
 	if ch := c.Fn("C06.nil", "(*Runtime).evalChainNodeExpression"); ch != nil {
